@@ -42,6 +42,7 @@ func (d *dumpStruct) HandleDumpStruct(v reflect.Value, isSlice ...bool) *dumpStr
 	d.buf.WriteByte('{')
 	maxIndex := tv.NumField()
 	if maxIndex == 0 {
+		d.buf.WriteByte('}')
 		return d
 	}
 
